@@ -36,7 +36,10 @@ PAIRS = ["ss", "tt", "uu", "vv", "dd", "xx", "yy"]
 ALIASES = ["PC", "USR", "LR", "SP", "FP", "GP", "LC0", "SA0", "UGP", "CS0", "M0", "UPCYCLE", "FRAMEKEY", "LC1"]
 IMMS = "rRsSuUmn"
 IDENTS = ["tmp", "EA", "i", "j", "foo1", "a", "b", "x1", "RsVx", "Rs", "siVx", "xRsV", "P", "R", "PuNx", "HEX_REG", "R3x",
-          "width", "_t", "N", "sV", "iV", "Rdd", "V", "RsN_", "uiv"]
+          "width", "_t", "N", "sV", "iV", "Rdd", "V", "RsN_", "uiv",
+          # identifiers that merely start (or end) like a keyword or a built-in terminal
+          "done", "format", "iface", "breakpoint", "elsewhere", "ifx", "fort", "int_x", "returned", "doit", "switcher",
+          "whileloop", "casex", "gotox", "sizeofx", "unsignedx", "voidp", "autoinc", "JUMPx", "mem_load", "NOPx", "constx", "forif"]
 NUMS = [("0", None), ("1", None), ("7", "U"), ("0x1f", None), ("0x10", "ULL"), ("3", "LL"), ("9", "u"), ("0xffffffff", "U"),
         ("12", "ull"), ("0xAB", None), ("100", "ll"), ("0x0", None)]
 
@@ -535,6 +538,18 @@ def whitespace_twins():
     return out
 
 
+def blank_sensitive_cases():
+    """Expressions in which removing or inserting a blank changes the token sequence: an explicit register in
+    front of ':' (R1 : 0 vs the register pair R1:0), postfix/prefix ++ and --, shift vs comparison."""
+    A = ("atom", ("id", "a"))
+    out = []
+    for reg in ("R1", "P3", "R31", "C12"):
+        for num in ("0", "1", "3", "13"):
+            out.append(("cond", A, ("atom", ("explicit", reg, False)), ("atom", ("num", num, None))))
+    out.append(("cond", A, ("atom", ("explicit", "R1", True)), ("atom", ("num", "0", None))))
+    return out
+
+
 def operator_pair_cases():
     """All ordered pairs of binary operators at equal or adjacent precedence levels, in both nestings."""
     A = ("atom", ("reg", "R", "s"))
@@ -558,6 +573,11 @@ def operator_pair_cases():
         out.append(("bin", o, ("cond", A, B, C), B))
         out.append(("cast", "int32_t", ("bin", o, A, B)))
         out.append(("bin", o, ("cast", "uint8_t", A), B))
+    for u in UN_OPS:
+        for t in ("int32_t", "uint8_t", "size8s_t"):
+            out.append(("un", u, ("cast", t, A)))
+            out.append(("cast", t, ("un", u, A)))
+            out.append(("un", u, ("cast", t, ("un", "-", ("atom", ("num", "1", None))))))
     out.append(("cond", A, B, ("cond", B, C, A)))
     out.append(("cond", ("cond", A, B, C), B, C))
     out.append(("cond", A, ("cond", A, B, C), C))
